@@ -54,6 +54,7 @@ def case_term(r):
 def oracle(r):
     bad = []
     stacks = {0: []}          # per task: contexts it is inside of (inherited base first)
+    pre_parent = {}
     for i, s in enumerate(r["steps"]):
         op, o = s["op"], s["out"]
         t = op["t"]
@@ -62,7 +63,16 @@ def oracle(r):
         if o["k"] == "odd":
             bad.append(("C12:odd", f"step {i}: {op} produced {o}"))
             continue
-        if op["op"] == "Enter":
+        if op["op"] == "NewCtx":
+            pre_parent[t] = top
+        if op["op"] == "EnterPre":
+            if not o.get("cur_ok"):
+                bad.append(("C12:top", f"step {i}: inside `async with ctx` current_context() is not that context"))
+            if o["parent"] != pre_parent.get(t):
+                bad.append(("C12:parent", f"step {i}: the context's parent is {o['parent']}, at its creation the current "
+                            f"context was {pre_parent.get(t)}"))
+            st.append(o["c"])
+        elif op["op"] == "Enter":
             if not o.get("cur_ok"):
                 bad.append(("C12:top", f"step {i}: inside `async with Context()` current_context() is not that context"))
             if o["parent"] != top:
@@ -116,6 +126,13 @@ def collect(ck, n_cases, n_ops, fixed=()):
 
 
 FIXED = [
+    # a context created while another one was current, entered later: leaving restores what was current
+    # at ENTRY, not the context's parent
+    [{"op": "Enter", "t": 0}, {"op": "NewCtx", "t": 0}, {"op": "Enter", "t": 0}, {"op": "EnterPre", "t": 0},
+     {"op": "Observe", "t": 0}, {"op": "Leave", "t": 0, "how": "ByReturn"}, {"op": "Observe", "t": 0},
+     {"op": "Leave", "t": 0, "how": "ByException"}, {"op": "Observe", "t": 0}],
+    [{"op": "NewCtx", "t": 0}, {"op": "Enter", "t": 0}, {"op": "EnterPre", "t": 0},
+     {"op": "Leave", "t": 0, "how": "ByCancel"}, {"op": "Observe", "t": 0}],
     [{"op": "Observe", "t": 0}, {"op": "Enter", "t": 0}, {"op": "Spawn", "t": 0, "kind": "SPlain"},
      {"op": "Enter", "t": 1}, {"op": "Enter", "t": 0}, {"op": "Observe", "t": 1}, {"op": "Leave", "t": 0, "how": "ByTeardownError"},
      {"op": "Observe", "t": 1}, {"op": "Leave", "t": 1, "how": "ByCancel"}, {"op": "Observe", "t": 0},
